@@ -81,7 +81,7 @@ def direct(run):
         return
     run.coverage["impl_sequences_checked"] = js["tried"]
     for f in js["found"]:
-        if f["key"] in ("ord-l1-perm", "ord-select-perm", "ord-panic", "ord-history"):
+        if f["key"] in ("ord-l1-perm", "ord-select-perm", "ord-panic", "ord-history", "ord-late-winners"):
             run.violation(f["key"], f["text"], {"kind": "impl-input", "sketcher": "ProbOrdMinHash2", "input": f["input"], "observed": f["text"]})
 
 
